@@ -396,6 +396,20 @@ fn c13_program(ad: &Addrs, kind: &str, context: usize, pos: usize, s: &str) -> O
     }
 }
 
+fn diff_keys(a: &std::collections::BTreeMap<Vec<u8>, Vec<u8>>, b: &std::collections::BTreeMap<Vec<u8>, Vec<u8>>) -> Vec<String> {
+    let mut out = vec![];
+    for k in a.keys().chain(b.keys()) {
+        if a.get(k) != b.get(k) {
+            let s = String::from_utf8_lossy(k).into_owned();
+            if !out.contains(&s) {
+                out.push(s);
+            }
+        }
+    }
+    out.truncate(8);
+    out
+}
+
 /// Differential verdict for one C13 case: the real run must agree with the model that decides
 /// the validity of node X's response correctly; if it agrees instead with the model that decides
 /// it the wrong way round, the predicate is violated; if it agrees with neither, the divergence
@@ -432,7 +446,34 @@ fn c13_one(ctx: &Ctx, world: &mut World, fam: &str, start: &StartState, p: &Prog
         );
         return;
     }
-    // neither model matches: if X's strings should surface in the top-level response, they must be there unchanged
+    // neither model matches. A malformed response must be handled with the same rollback as any other
+    // contract error: the run is compared with the real run of the same program in which X performs
+    // the same writes and then returns an ordinary error (a differential between two real runs, so
+    // whatever the code does on errors in general - other properties' business - cancels out)
+    if x_invalid {
+        let mut q = p.clone();
+        q.nodes[xi].fail = true;
+        let real_err = world.run_real(start, &std::rc::Rc::new(q));
+        let same = real.result.is_ok() == real_err.result.is_ok() && real.final_storage.data == real_err.final_storage.data && real.trace == real_err.trace;
+        if !same && real_err.panicked.is_none() {
+            *st.home.entry("malformed-response-not-handled-like-an-error".into()).or_default() += 1;
+            let what = if real.result.is_ok() != real_err.result.is_ok() {
+                "outcome differs"
+            } else if real.final_storage.data != real_err.final_storage.data {
+                "final chain state differs"
+            } else {
+                "entry points invoked afterwards (or what they saw) differ"
+            };
+            ctx.violation(
+                &format!("c13:malformed-response-not-handled-like-an-error:{}", pos),
+                case(json!({"expected": "same outcome, final state and later invocations as when the node returns an ordinary error after the same writes", "what": what,
+                    "outcome_with_malformed_response": real.result.is_ok(), "outcome_with_ordinary_error": real_err.result.is_ok(),
+                    "keys_differing": diff_keys(&real.final_storage.data, &real_err.final_storage.data)})),
+            );
+            return;
+        }
+    }
+    // if X's strings should surface in the top-level response, they must be there unchanged
     if !x_invalid {
         if let (Ok((rev, _)), Ok(m)) = (&real.result, &good.result) {
             let (ety, eattrs) = &x.events[1];
